@@ -593,7 +593,7 @@ def _dhtv_trace(case):
             feat0 = f['features']
             endf = [x[1]['features'] for x in ev if x[0] == 'dhtv_end']
             ids = _rowids(feat0, *(endf[:1]))
-            recs.append(dict(kind='start', ids=ids[0], fv=enc.aflt(feat0), plan=[[int(x) for x in p] for p in f['plan']],
+            recs.append(dict(kind='start', ids=ids[0], fv=enc.aflt(feat0), mv=enc.aflt(mask), plan=[[int(x) for x in p] for p in f['plan']],
                              metric=case['metric'], alg=case['alg'], **cfg))
             end_ids = ids[1] if len(ids) > 1 else []
         elif e == 'dhtv_iter':
